@@ -137,6 +137,20 @@ class ObjVal:
                 if r is NotImplemented or isinstance(r, _NotImplementedVal):
                     return False
                 return bool(ev.truth(r))
+            kind = ev._class_kind(ci)
+            if kind == "dataclass" and other.cinfo is ci and not any("eq=False" in d.replace(" ", "") for c_ in ci.mro() if not isinstance(c_, str) for d in c_.decorators):
+                # the __eq__ a dataclass gets: same class, fields with compare=True equal as a tuple
+                for n_, dflt, c_ in ev._fields(ci):
+                    if dflt is not None and isinstance(dflt, ast.Call) and any(k.arg == "compare" and isinstance(k.value, ast.Constant) and k.value.value is False for k in dflt.keywords):
+                        continue
+                    if not _eq(ev, self.attrs.get(n_), other.attrs.get(n_)):
+                        return False
+                return True
+            if kind == "namedtuple" and "__list__" in self.store and "__list__" in other.store:
+                a_, b_ = self.store["__list__"], other.store["__list__"]
+                return len(a_) == len(b_) and all(_eq(ev, x, y) for x, y in zip(a_, b_))
+        if ci is not None and ev is not None and isinstance(other, tuple) and "__list__" in self.store and ev._class_kind(ci) == "namedtuple":
+            return len(other) == len(self.store["__list__"]) and all(_eq(ev, x, y) for x, y in zip(self.store["__list__"], other))
         return False
 
     def __ne__(self, other):
@@ -809,12 +823,28 @@ class Evaluator:
                     if cav.kind == "class" and isinstance(cav.f, FuncVal):
                         return FuncVal(self, cav.f.finfo, closure=cav.f.closure, bound=obj, defcls=c)
                 return cav
-            if attr == "__name__":
+            if attr in ("__name__", "__qualname__"):
                 return obj.cinfo.name
+            if attr == "__mro__":
+                return tuple(ClassVal(self, c_) if not isinstance(c_, str) else (_BUILTINS.get(c_.split(".")[-1]) or ExtVal(c_)) for c_ in obj.cinfo.mro()) + (_BUILTINS["object"],)
+            if attr == "__bases__":
+                return tuple(ClassVal(self, c_) if not isinstance(c_, str) else (_BUILTINS.get(c_.split(".")[-1]) or ExtVal(c_)) for c_ in obj.cinfo.bases)
+            if attr == "_fields" and self._class_kind(obj.cinfo) == "namedtuple":
+                return tuple(n_ for n_, _d, _c in self._fields(obj.cinfo))
+            if attr == "_make" and self._class_kind(obj.cinfo) == "namedtuple":
+                return _NativeFn(lambda it, _cv=obj: self.instantiate(_cv, list(self.iterate(it)), {}))
+            if attr == "__members__" and self._class_kind(obj.cinfo) == "enum":
+                return {m.attrs["name"]: m for m in self.enum_members(obj.cinfo)}
             raise Raised("AttributeError", f"class {obj.cinfo.name} has no attribute {attr}", node)
         if isinstance(obj, _ObjectType):
             if attr == "__getattribute__":
                 return _NativeFn(lambda o, name: self.default_getattr(o, name, node))
+            if attr in ("__name__", "__qualname__"):
+                return "object"
+            if attr == "__setattr__":
+                return _NativeFn(_object_setattr)
+            if attr == "__init__":
+                return _NativeFn(lambda *a, **k: None)
             raise Undecided(f"object.{attr}")
         if isinstance(obj, OpaqueObj):
             return OpaqueObj(f"{obj.label}.{attr}")
@@ -823,6 +853,12 @@ class Evaluator:
                 return getattr(obj, attr)
             if attr == "ndim":
                 return len(obj.shape)
+            if attr == "sort":
+                def _sort(*a_, **k_):
+                    if len(obj.shape) != 1:
+                        raise Undecided("in-place sort of a matrix")
+                    obj.overwrite(_sorted_concrete(obj.flat()))
+                return _NativeFn(_sort)
             if attr == "tobytes":
                 return _NativeFn(lambda *a, **k: ("bytes-of",) + tuple(_hashable(x) for x in obj.flat()) + (obj.shape,))
             if attr == "astype":
@@ -945,6 +981,16 @@ class Evaluator:
                 mix = self._mapping_mixin(obj, attr)
                 if mix is not None:
                     return mix
+            if not isinstance(c, ClassInfo) and isinstance(obj, ObjVal) and (c.split(".")[-1] in _EXC_PARENTS or c.split(".")[-1].endswith(("Error", "Exception", "Warning"))):
+                if attr == "__init__":
+                    def _einit(*a, _o=obj, **k):
+                        _o.attrs["args"] = tuple(a)
+                        _o.attrs["__exc_msg__"] = a[0] if len(a) == 1 else (tuple(a) if a else "")
+                    return _NativeFn(_einit)
+                if attr == "args":
+                    return obj.attrs.get("args", ())
+                if attr in ("__str__", "__repr__"):
+                    return _NativeFn(lambda _o=obj: str(_o.attrs.get("__exc_msg__", "")))
             if not isinstance(c, ClassInfo):
                 # external base: dict/list/abc.ABC/object
                 if c == "list":
@@ -969,6 +1015,10 @@ class Evaluator:
                 continue
             if attr in c.methods:
                 f = c.methods[attr]
+                if getattr(f, "is_cached_property", False) and isinstance(obj, ObjVal):
+                    if attr not in obj.attrs:
+                        obj.attrs[attr] = self.call(FuncVal(self, f, bound=obj, defcls=c), [], {})
+                    return obj.attrs[attr]
                 if f.is_property:
                     return self.call(FuncVal(self, f, bound=obj, defcls=c), [], {})
                 if f.is_static:
@@ -998,6 +1048,26 @@ class Evaluator:
             return _NativeFn(lambda name: self.default_getattr(obj, name, node))
         if attr == "__class__":
             return ClassVal(self, cinfo)
+        if isinstance(obj, ObjVal) and start_after is None and not (attr.startswith("__") and attr.endswith("__")):
+            ga = cinfo.find_method("__getattr__")
+            if ga is not None and ("__getattr__", attr, id(obj)) not in self._in_getattribute:
+                self._in_getattribute.add(("__getattr__", attr, id(obj)))
+                try:
+                    return self.call(FuncVal(self, ga, bound=obj), [attr], {})
+                finally:
+                    self._in_getattribute.discard(("__getattr__", attr, id(obj)))
+        if isinstance(obj, ObjVal) and self._class_kind(cinfo) == "namedtuple" and attr in ("_replace", "_asdict", "count", "index"):
+            names = [n_ for n_, _d, _c in self._fields(cinfo)]
+            if attr == "_asdict":
+                return _NativeFn(lambda: {n_: obj.attrs[n_] for n_ in names})
+            if attr == "_replace":
+                def _replace(**kw):
+                    bad = [k_ for k_ in kw if k_ not in names]
+                    if bad:
+                        raise Raised("ValueError", f"Got unexpected field names: {bad}")
+                    return self.instantiate(ClassVal(self, cinfo), [], {n_: kw.get(n_, obj.attrs[n_]) for n_ in names})
+                return _NativeFn(_replace)
+            return _NativeFn(getattr(tuple(obj.attrs[n_] for n_ in names), attr))
         if attr == "__dataclass_fields__" and self._class_kind(cinfo) == "dataclass":
             return {n: record("dataclass_field_info", name=n) for n, _d, _c in self._fields(cinfo)}
         if attr == "_fields" and self._class_kind(cinfo) == "namedtuple":
@@ -1130,6 +1200,19 @@ class Evaluator:
 
     def _instantiate(self, cv, args, kwargs):
         kind = self._class_kind(cv.cinfo)
+        mro = cv.cinfo.mro()
+        if any(isinstance(c, str) and c.split(".")[-1] == "ABC" for c in mro) or any(ast.unparse(k.value).endswith("ABCMeta") for c in mro if not isinstance(c, str)
+                                                                               for k in getattr(c.node, "keywords", []) if k.arg == "metaclass"):
+            seen = set()
+            for c in mro:
+                if isinstance(c, str):
+                    continue
+                for name, f in c.methods.items():
+                    if name in seen:
+                        continue
+                    seen.add(name)
+                    if getattr(f, "is_abstract", False):
+                        raise Raised("TypeError", f"Can't instantiate abstract class {cv.cinfo.name} without an implementation for abstract method '{name}'")
         if kind == "enum":
             if len(args) != 1:
                 raise Raised("TypeError", "enum lookup takes one value")
@@ -1542,6 +1625,12 @@ class Evaluator:
             if s.exc is None:
                 raise Raised("reraise", "", s)
             e = self.eval(s.exc, env)
+            if isinstance(e, ClassVal) and _exc_base_of(e.cinfo) is not None:
+                e = self.instantiate(e, [], {})  # `raise MyError` instantiates the class
+            if isinstance(e, ObjVal) and e.cinfo is not None and _exc_base_of(e.cinfo) is not None:
+                r_ = Raised(e.cinfo.name, e.attrs.get("__exc_msg__", ""), s)
+                r_.obj = e  # the exception object itself (its attributes, its class for `except Base`)
+                raise r_
             if isinstance(e, _ExcVal):
                 raise Raised(e.etype, e.msg, s)
             if isinstance(e, type) and issubclass(e, BaseException):
@@ -1564,9 +1653,12 @@ class Evaluator:
                             names = [ast.unparse(x).split(".")[-1] for x in h.type.elts]
                         else:
                             names = [ast.unparse(h.type).split(".")[-1]]
-                        if names is None or any(_exc_matches(r.etype, nm) for nm in names):
+                        robj = getattr(r, "obj", None)
+                        lineage = ([c.name if not isinstance(c, str) else c.split(".")[-1] for c in robj.cinfo.mro()] if robj is not None else None)
+                        if names is None or any(_exc_matches(r.etype, nm) for nm in names) or \
+                                (lineage is not None and any(nm in lineage or any(_exc_matches(l_, nm) for l_ in lineage) for nm in names)):
                             if h.name:
-                                env.assign(h.name, _ExcVal(r.etype, r.msg))
+                                env.assign(h.name, robj if robj is not None else _ExcVal(r.etype, r.msg))
                             sig = self.exec_block(h.body, env)
                             break
                     else:
@@ -1695,6 +1787,16 @@ class Evaluator:
             o = self.eval(t.value, env)
             if isinstance(o, ObjVal):
                 if o.cinfo is not None:
+                    sa = o.cinfo.find_method("__setattr__")
+                    if sa is not None and ("__setattr__", id(o)) not in self._in_getattribute:
+                        self._in_getattribute.add(("__setattr__", id(o)))
+                        try:
+                            self.call(FuncVal(self, sa, bound=o), [t.attr, v], {})
+                        finally:
+                            self._in_getattribute.discard(("__setattr__", id(o)))
+                        return
+                    if any("frozen=True" in d.replace(" ", "") for c_ in o.cinfo.mro() if not isinstance(c_, str) for d in c_.decorators):
+                        raise Raised("FrozenInstanceError", f"cannot assign to field '{t.attr}'", t)
                     setter = None
                     for c in o.cinfo.mro():
                         if not isinstance(c, str) and t.attr in c.setters:
@@ -1861,6 +1963,10 @@ class Evaluator:
             return v
         if isinstance(v, LazyGen) or type(v).__name__ == "generator":
             return v  # single-pass and lazy: handed through as it is
+        if type(v).__name__ in ("count", "zip", "islice"):
+            return v
+        if isinstance(v, ClassVal) and self._class_kind(v.cinfo) == "enum":
+            return self.enum_members(v.cinfo)
         if isinstance(v, dict):
             return list(v)
         if isinstance(v, Arr):
@@ -2150,6 +2256,12 @@ class Evaluator:
         return res
 
     def compare(self, op, a, b, node):
+        if (isinstance(a, Arr) or isinstance(b, Arr)) and isinstance(op, (ast.Lt, ast.LtE, ast.Gt, ast.GtE, ast.Eq, ast.NotEq)) and not isinstance(a, Mask) and not isinstance(b, Mask):
+            # numpy compares element by element (with broadcasting) and gives an array of booleans
+            one = lambda x, y: bool(self._compare(op, x, y, node))
+            if isinstance(a, Arr):
+                return a._zip(b, one)
+            return b._zip(a, lambda y, x: one(x, y))
         r = self._compare(op, a, b, node)
         if isinstance(r, bool) and not isinstance(op, (ast.Is, ast.IsNot, ast.In, ast.NotIn)) and (is_np_scalar(a) or is_np_scalar(b)):
             return NpBool(r)  # a comparison with a numpy scalar yields np.bool_
@@ -2271,6 +2383,8 @@ class Evaluator:
                 return o.store[k]
             raise Raised("KeyError", repr(k), n)
         if isinstance(o, Arr):
+            if isinstance(k, Arr) and k.shape == o.shape and len(o.shape) > 1 and all(isinstance(x, bool) for x in k.flat()):
+                return Arr([c.v for c, m_ in zip(o.flat_cells(), k.flat()) if m_])  # a[mask] with a full-shape mask: the selected elements, flat, a copy
             if isinstance(k, (list, Arr)):
                 idx = [num_norm(i) for i in (k.data if isinstance(k, Arr) else k)]
                 if idx and all(isinstance(i, bool) for i in idx):
@@ -2553,7 +2667,7 @@ def _is_generator(fn_node):
 _EXC_PARENTS = {
     "ModuleNotFoundError": "ImportError", "KeyError": "LookupError", "IndexError": "LookupError", "FileNotFoundError": "OSError",
     "ZeroDivisionError": "ArithmeticError", "OverflowError": "ArithmeticError", "NotImplementedError": "RuntimeError", "RecursionError": "RuntimeError",
-    "UnicodeDecodeError": "ValueError", "ConstructorError": "YAMLError", "RepresenterError": "YAMLError",
+    "UnicodeDecodeError": "ValueError", "ConstructorError": "YAMLError", "RepresenterError": "YAMLError", "FrozenInstanceError": "AttributeError",
 }
 
 
@@ -2605,6 +2719,15 @@ class _NativeFn:
 
     def __call__(self, *a, **k):
         return self.fn(*a, **k)
+
+
+def _exc_base_of(cinfo):
+    """Name of the builtin exception a project class derives from (None if it is not an exception class)."""
+    for c in cinfo.mro():
+        nm = c if isinstance(c, str) else None
+        if nm is not None and (nm.split(".")[-1] in _EXC_PARENTS or nm.split(".")[-1] in ("Exception", "BaseException") or nm.split(".")[-1].endswith(("Error", "Exception", "Warning"))):
+            return nm.split(".")[-1]
+    return None
 
 
 class _ExcVal:
@@ -2665,6 +2788,12 @@ def _eq(ev, a, b):
         m = a.cinfo.find_method("__eq__")
         if m is not None:
             return ev.truth(ev.call(FuncVal(ev, m, bound=a), [b], {}))
+        if ev._class_kind(a.cinfo) in ("dataclass", "namedtuple"):
+            prev, _ACTIVE[0] = _ACTIVE[0], (ev if ev is not _DUMMY or _ACTIVE[0] is None else _ACTIVE[0])
+            try:
+                return a.__eq__(b)
+            finally:
+                _ACTIVE[0] = prev
         return a is b
     if isinstance(a, Arr) or isinstance(b, Arr):
         raise Undecided("array comparison")
@@ -2760,6 +2889,15 @@ def _depth(x):
 
 def _arr_store(o, k, v, node=None):
     """o[k] = v with integer / slice / Ellipsis-free indices and numpy broadcasting of v."""
+    if isinstance(k, Arr) and all(isinstance(x, bool) for x in k.flat()) and len(k.flat()) == len(o.flat_cells()):
+        cells = [c for c, m_ in zip(o.flat_cells(), k.flat()) if m_]
+        vals = v.flat() if isinstance(v, Arr) else None
+        if vals is not None and len(vals) != len(cells):
+            raise Raised("ValueError", f"NumPy boolean array indexing assignment cannot assign {len(vals)} input values to the {len(cells)} output values where the mask is true", node)
+        _cells_written(cells)
+        for i_, c in enumerate(cells):
+            c.v = vals[i_] if vals is not None else v
+        return
     ks = k if isinstance(k, tuple) else (k,)
     if any(isinstance(i, Rat) for i in ks):
         raise Undecided("symbolic array index in a store")
@@ -2895,6 +3033,8 @@ def _b_str(v=""):
         raise Undecided("str() of symbolic value")
     if isinstance(v, ClassVal):
         return f"<class '{v.cinfo.module.name}.{v.cinfo.name}'>"
+    if isinstance(v, ObjVal) and v.cinfo is not None and "__exc_msg__" in v.attrs and v.cinfo.find_method("__str__") is None:
+        return str(v.attrs["__exc_msg__"])
     if isinstance(v, ObjVal) and v.cinfo is not None:
         m = v.cinfo.find_method("__repr__") or v.cinfo.find_method("__str__")
         if m is not None and _ACTIVE[0] is not None:
@@ -3017,10 +3157,11 @@ _BUILTINS = {
     "StopIteration": StopIteration,
     "OSError": OSError,
     "FileNotFoundError": FileNotFoundError,
-    "len": lambda x: _obj_len(x) if isinstance(x, ObjVal) else len(x.data) if isinstance(x, Arr) else len(x),
+    "len": lambda x: _obj_len(x) if isinstance(x, ObjVal) else len(x.data) if isinstance(x, Arr) else
+    (len(_ACTIVE[0].enum_members(x.cinfo)) if isinstance(x, ClassVal) and _ACTIVE[0] is not None and _ACTIVE[0]._class_kind(x.cinfo) == "enum" else len(x)),
     "range": range,
     "enumerate": lambda it, start=0: list(enumerate(_DUMMY.iterate(it), start)),
-    "zip": lambda *its: list(zip(*[_DUMMY.iterate(i) for i in its])),
+    "zip": lambda *its, strict=False: _b_zip(its, strict),
     "min": _b_minmax(min),
     "max": _b_minmax(max),
     "abs": _b_abs,
@@ -3080,6 +3221,15 @@ class _ObjectType:
 
 
 _BUILTINS["object"] = _ObjectType()
+
+
+def _object_setattr(o, name, value):
+    if not isinstance(o, ObjVal):
+        raise Undecided("object.__setattr__ on a non-object")
+    o.attrs[name] = value
+
+
+_ObjectType.__setattr__ = staticmethod(_object_setattr)
 
 
 class _TypeProxy:
@@ -3153,6 +3303,15 @@ def _make_class(name, bases, namespace=None):
         else:
             ev.class_stores[(ci.fq, k)] = v
     return cv
+
+
+def _b_zip(its, strict):
+    if any(isinstance(i, LazyGen) or type(i).__name__ in ("generator", "count") for i in its) and not strict:
+        return zip(*[_DUMMY.iterate(i) for i in its])  # stays lazy: an unbounded iterator may be among them
+    lists = [list(_DUMMY.iterate(i)) for i in its]
+    if strict and len({len(l_) for l_ in lists}) > 1:
+        raise Raised("ValueError", "zip() arguments have different lengths")
+    return list(zip(*lists))
 
 
 def _b_type(o):
@@ -3362,7 +3521,11 @@ def _np_concat(ev, seq, axis=0, **kw):
 
 def _np_stack(ev, seq, axis=0, **kw):
     arrs = [_as_arr(ev, x) for x in ev.iterate(seq)]
-    if num_norm(axis) != 0 or any(a is None for a in arrs):
+    if any(a is None for a in arrs):
+        raise Undecided("np.stack of non-arrays")
+    if num_norm(axis) in (1, -1) and all(len(a.shape) == 1 for a in arrs):
+        return Arr([list(col) for col in zip(*[a.data for a in arrs])])
+    if num_norm(axis) != 0:
         raise Undecided("np.stack along a non-leading axis")
     return Arr([_deepcopy(ev, a.data) for a in arrs])
 
@@ -3370,6 +3533,29 @@ def _np_stack(ev, seq, axis=0, **kw):
 def _np_outer(ev, a, b):
     a, b = _as_arr(ev, a), _as_arr(ev, b)
     return Arr([[ev.binop(ast.Mult(), x, y) for y in b.flat()] for x in a.flat()])
+
+
+def _concrete_list(vals):
+    vals = [num_norm(v) for v in vals]
+    if any(isinstance(v, Rat) for v in vals):
+        raise Undecided("ordering of symbolic array elements")
+    return vals
+
+
+def _sorted_concrete(vals):
+    return sorted(_concrete_list(vals))
+
+
+def _np_arg(ev, a, axis, pick):
+    a = _as_arr(ev, a)
+    if axis is None or len(a.shape) == 1:
+        vals = _concrete_list(a.flat())
+        return vals.index(pick(vals))
+    axis = num_norm(axis)
+    if len(a.shape) != 2:
+        raise Undecided("argmax/argmin of a higher-rank array along an axis")
+    rows = a.data if axis in (1, -1) else [list(c) for c in zip(*a.data)]
+    return Arr([_concrete_list(r).index(pick(_concrete_list(r))) for r in rows])
 
 
 def _np_where(ev, cond, a=None, b=None):
@@ -3384,9 +3570,8 @@ def _np_where(ev, cond, a=None, b=None):
         bv = b.flat()[i] if isinstance(b, Arr) else b
         return av if ev.truth(cv) else bv
 
-    if len(c.shape) != 1:
-        raise Undecided("np.where on a matrix condition")
-    return Arr([pick(i, cv) for i, cv in enumerate(c.data)])
+    flat = [pick(i, cv) for i, cv in enumerate(c.flat())]
+    return Arr(flat).reshape(*c.shape) if len(c.shape) != 1 else Arr(flat)
 
 
 def _np_linspace(ev, a, b, num=50, endpoint=True, **kw):
@@ -3643,6 +3828,8 @@ def _allclose(ev, a, b, **kw):
 
 
 def _it(x):
+    if type(x).__name__ in ("count", "cycle", "repeat"):
+        raise Undecided("an unbounded iterator is consumed as a whole")
     return list(_DUMMY.iterate(x))
 
 
@@ -3652,6 +3839,18 @@ class PartialVal(_NativeFn):
     def __init__(self, ev, func, args, kwargs):
         super().__init__(lambda *a2, **k2: ev.call(func, list(args) + list(a2), {**kwargs, **k2}))
         self.func, self.args, self.keywords = func, tuple(args), dict(kwargs)
+
+
+def _groupby(ev, it, key):
+    out, cur_key, cur = [], None, None
+    for x in _it(it):
+        k = ev.call(key, [x], {}) if key is not None else x
+        if cur is None or not _eq(ev, num_norm(cur_key), num_norm(k)):
+            cur = []
+            out.append((k, cur))
+            cur_key = k
+        cur.append(x)
+    return out
 
 
 def _partial(ev, f, *a, **k):
@@ -3767,10 +3966,17 @@ _EXT_CALLS = {
     "itertools.permutations": lambda ev, it, r=None: [tuple(t) for t in _itertools.permutations(_it(it), r)],
     "itertools.accumulate": _accumulate,
     "itertools.repeat": lambda ev, v, n=None: [v] * n if n is not None else _raise_undecided("unbounded itertools.repeat"),
-    "itertools.islice": lambda ev, it, *a: list(_itertools.islice(_it(it), *a)),
+    "itertools.islice": lambda ev, it, *a: list(_itertools.islice(iter(ev.iterate(it)), *a)),  # lazy: the source may be unbounded
     "itertools.zip_longest": lambda ev, *its, fillvalue=None: [tuple(t) for t in _itertools.zip_longest(*[_it(i) for i in its], fillvalue=fillvalue)],
     "itertools.starmap": lambda ev, f, it: [ev.call(f, list(a), {}) for a in _it(it)],
-    "itertools.groupby": lambda ev, *a, **k: _raise_undecided("itertools.groupby"),
+    "itertools.groupby": lambda ev, it, key=None: _groupby(ev, it, key),
+    "itertools.count": lambda ev, start=0, step=1: _itertools.count(start, step) if isinstance(start, (int, Fraction)) and isinstance(step, (int, Fraction)) else _raise_undecided("itertools.count over symbols"),
+    "itertools.pairwise": lambda ev, it: list(_itertools.pairwise(_it(it))),
+    "itertools.tee": lambda ev, it, n=2: tuple(list(_it(it)) for _ in range(n)),
+    "itertools.takewhile": lambda ev, f, it: list(_itertools.takewhile(lambda x: ev.truth(ev.call(f, [x], {})), _it(it))),
+    "itertools.dropwhile": lambda ev, f, it: list(_itertools.dropwhile(lambda x: ev.truth(ev.call(f, [x], {})), _it(it))),
+    "itertools.compress": lambda ev, d, sel: [x for x, s_ in zip(_it(d), _it(sel)) if ev.truth(s_)],
+    "itertools.cycle": lambda ev, it: _raise_undecided("unbounded itertools.cycle"),
     "collections.namedtuple": _namedtuple,
     "collections.OrderedDict": lambda ev, *a, **k: dict(*[(x.store if isinstance(x, ObjVal) else x) for x in a], **k),
     "collections.defaultdict": _defaultdict,
@@ -3802,6 +4008,12 @@ _EXT_CALLS = {
     "numpy.matmul": lambda ev, a, b: ev.binop(ast.MatMult(), _as_arr(ev, a), _as_arr(ev, b)),
     "numpy.einsum": _np_einsum,
     "numpy.where": _np_where,
+    "numpy.sort": lambda ev, a, **k: Arr(_sorted_concrete(_as_arr(ev, a).flat())) if len(_as_arr(ev, a).shape) == 1 else _raise_undecided("np.sort of a matrix"),
+    "numpy.argsort": lambda ev, a, **k: Arr([i for i, _ in sorted(enumerate(_concrete_list(_as_arr(ev, a).flat())), key=lambda t: t[1])]),
+    "numpy.argmax": lambda ev, a, axis=None, **k: _np_arg(ev, a, axis, max),
+    "numpy.argmin": lambda ev, a, axis=None, **k: _np_arg(ev, a, axis, min),
+    "numpy.count_nonzero": lambda ev, a, **k: sum(1 for x in _as_arr(ev, a).flat() if ev.truth(x)),
+    "numpy.flatnonzero": lambda ev, a: Arr([i for i, x in enumerate(_as_arr(ev, a).flat()) if ev.truth(x)]),
     "numpy.linspace": _np_linspace,
     "numpy.arange": _np_arange,
     "numpy.ones": _np_shape_fill(1),
